@@ -108,3 +108,19 @@ def check_c06(io, time_budget=120):
         ok = ok and not M.ed25519_verify_rfc(pk, msg, s1, ph=True)
         return (ok, dict(pk=pk.hex(), sig=s1.hex(), sig_ph=s2.hex()))
     return _run(io, {"ed25519": h}, time_budget, "C06")
+
+
+def check_c01(io, time_budget=120):
+    def sb(d):
+        want = M.secretbox_easy(_b(d["msg"]), _b(d["nonce"]), _b(d["key"]))
+        return (d["ct"] == want.hex(), want.hex()[:64])
+
+    def bx(d):
+        want = M.box_easy(_b(d["msg"]), _b(d["nonce"]), _b(d["pk"]), _b(d["sk"]))
+        return (d["ct"] == want.hex(), want.hex()[:64])
+
+    def sl(d):
+        got = M.seal_open(_b(d["ct"]), _b(d["rpk"]), _b(d["rsk"]))
+        # sole reference for the python side: the ciphertext came from dryoc, libsodium already opened it online
+        return (got is not None and got.hex() == d["msg"], None if got is None else got.hex()[:64])
+    return _run(io, {"secretbox": sb, "box": bx, "seal": sl}, time_budget, "C01")
